@@ -170,6 +170,10 @@ def check(ctx):
              "the property's constraint list")
     ctx.exception("ExactlyKMultipleInARow", "selectors are one-directional; class not exported")
 
+    # ---- what the samplers declare to the solver: clauses of the very request, fresh - 1 variables (a declared variable that no
+    # clause mentions is free and doubles the model count), variables_per_sample() as the support
+    from . import C01 as _C01
+    _C01.rule_pipeline(ctx, R="C03.pipeline")
     # ---- sampling set
     R = "C03.sampling-set"
     for ref in ("iterate_sat:IterateSATGen.sample", "sampling_strategy.unigen:UniGen.sample"):
